@@ -77,15 +77,44 @@ Section Generic.
   Definition del_some (v : Z) (committed : list (vkey * V)) (ks : list bytes) (es : list (vkey * V)) : list (vkey * V) :=
     fold_left (fun es f => if emem v f committed then edel v f es else es) ks es.
 
+  (* ---------- removing every element key of one generation, as the code does it ----------
+     The element keys of generation v of one collection are the engine keys in [start v, stop v), with the
+     bound keys *EncodeStartKey / *EncodeStopKey (collVerKeyInfo.RangeStart / RangeEnd): start v sorts
+     below every element key of v, stop v above all of them and below the next generation (byte level:
+     property C12, C12_hash_clear_exact and friends). *)
+  Inductive ebound := BStart (v : Z) | BStop (v : Z).
+  Definition bound_le (b : ebound) (k : vkey) : bool :=        (* b <= k in engine order *)
+    match b with BStart v => v <=? fst k | BStop v => v <? fst k end.
+  Definition lt_bound (k : vkey) (b : ebound) : bool :=        (* k < b in engine order *)
+    match b with BStart v => fst k <? v | BStop v => fst k <=? v end.
+  Definition in_range (lo hi : ebound) (k : vkey) : bool := bound_le lo k && lt_bound k hi.
+  (* wb.DeleteRange(lo, hi): every key in [lo, hi) *)
+  Definition delete_range (lo hi : ebound) (es : list (vkey * V)) : list (vkey * V) :=
+    filter (fun e => negb (in_range lo hi (fst e))) es.
+  (* iterator over [lo, hi) + wb.Delete of every key it returns *)
+  Definition delete_each (lo hi : ebound) (es : list (vkey * V)) : list (vkey * V) :=
+    fold_left (fun acc k => adel vkey_eqb k acc) (map fst (filter (fun e => in_range lo hi (fst e)) es)) es.
+
+  (* hDeleteAll: two independent tests on the size (no hash index on the table) *)
+  Definition clear_elems_tests (size v : Z) (es : list (vkey * V)) : list (vkey * V) :=
+    let es1 := if size <=? range_delete_num then delete_each (BStart v) (BStop v) es else es in
+    if range_delete_num <? size then delete_range (BStart v) (BStop v) es1 else es1.
+  (* sDelete: if size > RangeDeleteNum then DeleteRange else iterate *)
+  Definition clear_elems_else (size v : Z) (es : list (vkey * V)) : list (vkey * V) :=
+    if range_delete_num <? size then delete_range (BStart v) (BStop v) es else delete_each (BStart v) (BStop v) es.
+
   (* *Clear / *DeleteAll of an existing collection: meta deleted; the element keys are left to the
      compaction filter (lazy) under wait_compact when the generation is below the timestamp of the
      clearing entry (fix 1dcd66e: a collection re-created at this same timestamp would get the same
-     generation number), otherwise deleted *)
+     generation number), otherwise removed: key by key up to RangeDeleteNum elements, with one
+     DeleteRange above *)
   Definition lazy_clear (compact : bool) (ts v : Z) : bool := compact && (v <? ts).
-  Definition clear_coll (lazy : bool) (c : coll V) : coll V :=
+  Definition clear_coll (lazy : bool) (tests : bool) (c : coll V) : coll V :=
     match c_meta c with
     | None => c
-    | Some m => Build_coll None (if lazy then c_elems c else drop_gen (cm_ver m) (c_elems c))
+    | Some m => Build_coll None (if lazy then c_elems c
+                                 else if tests then clear_elems_tests (cm_size m) (cm_ver m) (c_elems c)
+                                 else clear_elems_else (cm_size m) (cm_ver m) (c_elems c))
     end.
 End Generic.
 
@@ -154,7 +183,7 @@ Definition hincrby (compact : bool) (ts : Z) (key f : bytes) (delta : Z) (c : hc
 Definition hclear (compact : bool) (ts : Z) (key : bytes) (c : hcoll) : hcoll * reply :=
   if negb (key_ok key) then (c, RErr)
   else if st_size c =? 0 then (c, RInt 0)
-  else (clear_coll (lazy_clear compact ts (st_ver c)) c, RInt 1).
+  else (clear_coll (lazy_clear compact ts (st_ver c)) true c, RInt 1).
 
 (* reads *)
 Definition hlen (key : bytes) (c : hcoll) : reply :=
@@ -242,7 +271,7 @@ Definition spop (key : bytes) (count : option Z) (c : scoll) : scoll * reply :=
 Definition sclear (compact : bool) (ts : Z) (key : bytes) (c : scoll) : scoll * reply :=
   if negb (key_ok key) then (c, RErr)
   else if st_size c =? 0 then (c, RInt 0)
-  else (clear_coll (lazy_clear compact ts (st_ver c)) c, RInt 1).
+  else (clear_coll (lazy_clear compact ts (st_ver c)) false c, RInt 1).
 
 Definition scard (key : bytes) (c : scoll) : reply :=
   if negb (key_ok key) then RErr else RInt (st_size c).
